@@ -50,6 +50,8 @@ var smtpCodes = []struct {
 var messages = []string{
 	"Try again later", "Policy rejection", "No such user here", "Sender address rejected: blocked",
 	"Ошибка доставки", "café closed", "edge\u0080byte", "emoji \U0001F600 reply", "line one\nline two", "x",
+	// go-smtp's client takes reply lines of up to 2000 octets
+	strings.Repeat("a very long explanation ", 60),
 }
 
 var markers = []string{
